@@ -73,6 +73,105 @@ func (j *Journal) Entries() []Entry {
 	return append([]Entry(nil), j.entries...)
 }
 
+// Since returns a snapshot of the journal entries from position pos on.
+func (j *Journal) Since(pos int) []Entry {
+	j.mu.Lock()
+	defer j.mu.Unlock()
+	if pos >= len(j.entries) {
+		return nil
+	}
+	return append([]Entry(nil), j.entries[pos:]...)
+}
+
+// DurableDir follows a journal incrementally and answers what a file of the
+// simulated directory would contain after a power loss right now, in the
+// worst admissible case: namespace operations count only once a directory
+// fsync followed them, file data only up to the file's last fsync (the same
+// image as DirImageAt with DirChoice{0, 0}).
+type DurableDir struct {
+	j       *Journal
+	pos     int
+	live    map[string]*dinode
+	durable map[string]*dinode
+	pending []Entry
+	// inode created by the i-th pending operation (nil unless it is a create)
+	pendingInodes []*dinode
+}
+
+type dinode struct {
+	data   []byte
+	synced int
+}
+
+// NewDurableDir starts following j from its beginning.
+func NewDurableDir(j *Journal, initial map[string][]byte) *DurableDir {
+	d := &DurableDir{j: j, live: map[string]*dinode{}, durable: map[string]*dinode{}}
+	for n, v := range initial {
+		in := &dinode{data: append([]byte(nil), v...), synced: len(v)}
+		d.live[n], d.durable[n] = in, in
+	}
+	return d
+}
+
+func applyNS(m map[string]*dinode, e Entry, created *dinode) {
+	switch e.Kind {
+	case "create":
+		m[e.Name] = created
+	case "remove":
+		delete(m, e.Name)
+	case "rename":
+		if in, ok := m[e.Name]; ok {
+			delete(m, e.Name)
+			m[e.Name2] = in
+		}
+	}
+}
+
+// File returns the durable content of a file (false: it does not exist durably).
+func (d *DurableDir) File(name string) ([]byte, bool) {
+	es := d.j.Since(d.pos)
+	d.pos += len(es)
+	for _, e := range es {
+		if e.Target != "dir" {
+			continue
+		}
+		switch e.Kind {
+		case "create", "remove", "rename":
+			var in *dinode
+			if e.Kind == "create" {
+				in = &dinode{}
+			}
+			applyNS(d.live, e, in)
+			e.Data = nil
+			d.pending = append(d.pending, e)
+			if in != nil {
+				// remember the inode for the deferred application
+				d.pendingInodes = append(d.pendingInodes, in)
+			} else {
+				d.pendingInodes = append(d.pendingInodes, nil)
+			}
+		case "fwrite":
+			if in := d.live[e.Name]; in != nil {
+				in.data = append(in.data, e.Data...)
+			}
+		case "fsync":
+			if in := d.live[e.Name]; in != nil {
+				in.synced = len(in.data)
+			}
+		case "dirsync":
+			for i, p := range d.pending {
+				applyNS(d.durable, p, d.pendingInodes[i])
+			}
+			d.pending, d.pendingInodes = d.pending[:0], d.pendingInodes[:0]
+		}
+	}
+	in, ok := d.durable[name]
+	if !ok {
+		return nil, false
+	}
+	return in.data[:in.synced], true
+}
+
 // ---------------------------------------------------------------------------
 // Device
 
